@@ -15,7 +15,7 @@
 
   Strings are `List Char`.  A `&mut` environment becomes a returned `Env`; an error keeps the
   environment reached so far (assignments made by `${x=w}` before the error persist, as in Rust).
-  Not modelled: command substitution, pathname expansion
+  Command substitution is an opaque value source (`Env.cmdOut`).  Not modelled: pathname expansion
   (the harness runs with `set -f`), `LINENO`-style quirks.  Trim patterns are matched by the C04
   model of yash-fnmatch (`YashModel.Fnmatch.Model`: parser with bracket expressions, translation
   to a regular expression, leftmost-first search, literal fast path) — composed, not re-modelled.
@@ -165,7 +165,10 @@ structure Env where
   /-- the user database as `System::getpwnam_dir` sees it: login name ↦ home directory
       (`VirtualSystem::home_dirs` in the correspondence run) -/
   homes : List (List Char × List Char) := []
-  deriving Repr
+  /-- command substitution as an opaque value source: the standard output of the command text when it is run in a
+      subshell (`command_subst::expand`: pipe, subshell, `read_all`); a PARAMETER of the model — every theorem holds
+      for every such function (the subshell cannot change the variables of this environment) -/
+  cmdOut : List Char → List Char := fun _ => []
 
 /-- the innermost function context that has the name -/
 def lookupCtxs : List (List (String × Var)) → String → Option Var
@@ -317,6 +320,8 @@ mutual
     | bs (c : Char)
     /-- `RawParam` (modifier `none`) or `BracedParam` -/
     | param (p : Param) (m : Modifier)
+    /-- `CommandSubst { content }` (`$(…)`) or `Backquote { content }` (`` `…` ``, content already unquoted) -/
+    | cmd (backquote : Bool) (command : List Char)
     /-- `Arith { content }`: `$((…))` -/
     | arith (content : Text)
   inductive Text
@@ -572,6 +577,15 @@ def finishParam (env : Env) (willSplit : Bool) (p : Param) (value : Option Value
   let phrase := intoPhrase value
   if !willSplit && p == .star then .field (phrase.ifsJoin env) else phrase
 
+/-! ### Command substitution (`initial/command_subst.rs`) -/
+
+/-- `result.trim_end_matches('\n')` -/
+def stripTrailingNewlines (s : List Char) : List Char := (s.reverse.dropWhile (· == '\n')).reverse
+
+/-- `command_subst::expand_common` once the output is read: trailing newlines removed, every character the result
+    of a soft expansion, one field -/
+def cmdSubstPhrase (output : List Char) : Phrase := .field (toField (stripTrailingNewlines output))
+
 /-! ### Arithmetic expansion (`initial/arith.rs`) on top of the yash-arith model of C03 -/
 
 /-- `impl yash_arith::Env for VarEnv` on this area's environment — the adapter to the interface `Arith.EnvI` of C03:
@@ -622,6 +636,7 @@ mutual
     | .lit c => (env, .ok (.char { value := c, origin := .literal, isQuoted := false, isQuoting := false }))
     | .bs c => (env, .ok (.field [quoteChar '\\', quotedLit c]))
     | .param p m => expandParam env willSplit p (resolve env p) m
+    | .cmd _ c => (env, .ok (cmdSubstPhrase (env.cmdOut c)))
     | .arith t =>
       -- `expand_text(env.inner, text)`: a fresh `initial::Env` (will_split = true), `ifs_join`, quote removal
       match (if t.isNil then (env, .ok Phrase.oneEmptyField) else expandTextGo env true Phrase.zeroFields t) with
